@@ -184,6 +184,11 @@ def go_build_driver(pkg):
 
 
 def sync_gosum():
+    import gomod
+    gomod.sync()
+    return
+
+def _old_sync_gosum():
     src = os.path.join(REPO, "go.sum")
     dst = os.path.join(HARNESS, "go.sum")
     try:
